@@ -47,3 +47,69 @@ Example restore_example :
   restore_dim_order ["time"; "y"; "x"]%string "month" (Some "time"%string) false ["y"; "x"; "month"]%string
   = ["month"; "y"; "x"]%string.
 Proof. reflexivity. Qed.
+
+(* ---------- _broadcast_size_one_dims aligns the grouper with the array's core dims ---------- *)
+Close Scope Z_scope.
+Open Scope nat_scope.
+Lemma nat_index_of_nth d l : forall i, NoDup l -> In d l -> nth (nat_index_of d l i - i) l ""%string = d /\ i <= nat_index_of d l i.
+Proof.
+  induction l as [|x r IH]; intros i Hnd Hin; [destruct Hin|]. simpl.
+  destruct (String.eqb_spec x d) as [->|Hne].
+  - rewrite Nat.sub_diag. split; [reflexivity| lia].
+  - inversion Hnd as [|? ? Hnotin Hnd']; subst. destruct Hin as [->|Hin]; [congruence|].
+    destruct (IH (S i) Hnd' Hin) as [Hnth Hle].
+    replace (nat_index_of d r (S i) - i) with (S (nat_index_of d r (S i) - S i)) by lia. split; [exact Hnth| lia].
+Qed.
+
+Lemma smem_In d l : smem d l = true <-> In d l.
+Proof.
+  unfold smem. rewrite existsb_exists. split.
+  - intros [x [Hx E]]. apply String.eqb_eq in E. now subst.
+  - intros H. exists d. split; [exact H| apply String.eqb_refl].
+Qed.
+
+(* the transposed grouper lists its dims in the array's core order *)
+Theorem transposed_in_core_order core bdims :
+  NoDup bdims -> transposed core bdims = filter (fun d => smem d bdims) core.
+Proof.
+  intros Hnd. unfold transposed, transpose_order. rewrite map_map.
+  induction core as [|d r IH]; [reflexivity|]. simpl. destruct (smem d bdims) eqn:E; [|exact IH].
+  simpl. rewrite IH. f_equal. apply smem_In in E.
+  destruct (nat_index_of_nth d bdims 0 Hnd E) as [H _]. now rewrite Nat.sub_0_r in H.
+Qed.
+
+Lemma expand_at_spec core bdims : forall pos,
+  expand_at pos (positions_where (fun d => negb (smem d bdims)) core pos)
+            (map Some (filter (fun d => smem d bdims) core)) (length core)
+  = map (fun d => if smem d bdims then Some d else None) core.
+Proof.
+  induction core as [|d r IH]; intros pos; [reflexivity|]. simpl.
+  destruct (smem d bdims) eqn:E; simpl.
+  - (* present: position pos is not an inserted axis *)
+    assert (Hn : existsb (Nat.eqb pos) (positions_where (fun d0 => negb (smem d0 bdims)) r (S pos)) = false).
+    { clear. generalize (S pos) (Nat.lt_succ_diag_r pos). induction r as [|x r IH]; intros p Hp; [reflexivity|]. simpl.
+      destruct (negb (smem x bdims)); simpl; [|apply IH; lia].
+      destruct (Nat.eqb_spec pos p); [lia|]. apply IH. lia. }
+    rewrite Hn. f_equal. apply IH.
+  - rewrite Nat.eqb_refl. simpl. f_equal.
+    (* the remaining axes list is the one for the tail; membership of pos is irrelevant further on *)
+    assert (Hgen : forall cur n p, pos < p ->
+              expand_at p (pos :: positions_where (fun d0 => negb (smem d0 bdims)) r (S pos)) cur n
+              = expand_at p (positions_where (fun d0 => negb (smem d0 bdims)) r (S pos)) cur n).
+    { intros cur n. revert cur. induction n as [|n IHn]; intros cur p Hp; [reflexivity|]. simpl.
+      destruct (Nat.eqb_spec p pos); [lia|]. simpl.
+      destruct (existsb (Nat.eqb p) _); [f_equal; apply IHn; lia|]. destruct cur; [reflexivity|]. f_equal. apply IHn. lia. }
+    rewrite Hgen by lia. apply IH.
+Qed.
+
+(* ... and after inserting the size-1 axes its axes line up one-to-one with the array's core dims *)
+Theorem broadcast_aligns_with_core core bdims :
+  NoDup bdims ->
+  broadcast_result core bdims = map (fun d => if smem d bdims then Some d else None) core.
+Proof.
+  intros Hnd. unfold broadcast_result, broadcast_axes. rewrite (transposed_in_core_order core bdims Hnd). apply expand_at_spec.
+Qed.
+
+Example broadcast_example :
+  broadcast_result ["x"; "y"; "z"]%string ["z"; "x"]%string = [Some "x"; None; Some "z"]%string.
+Proof. reflexivity. Qed.
